@@ -89,6 +89,23 @@ func init() {
 		}
 		l.p("/-- the body of `emptyCursor.WaitNewData` is `return nil`: it neither blocks nor looks at the context -/")
 		l.p("def emptyCursorWaitReturnsAtOnce : Bool := %s", leanBool(atOnce))
+		// `<-ctx.Done(); return ctx.Err()`
+		blocks := false
+		if fd := funcDecl(nf, "emptyCursor", "WaitNewData"); fd != nil && len(fd.Body.List) == 2 {
+			s0, s1 := c11Idents(fd.Body.List[0]), c11Idents(fd.Body.List[1])
+			if es, ok := fd.Body.List[0].(*ast.ExprStmt); ok {
+				if ue, ok := es.X.(*ast.UnaryExpr); ok && ue.Op == token.ARROW && strings.Contains(s0, "ctx Done") {
+					if _, ok := fd.Body.List[1].(*ast.ReturnStmt); ok && strings.Contains(s1, "ctx Err") {
+						blocks = true
+					}
+				}
+			}
+		}
+		if !atOnce && !blocks {
+			problem("cursor.emptyCursor.WaitNewData has neither of the two shapes the model knows (return nil | <-ctx.Done(); return ctx.Err())")
+		}
+		l.p("/-- the body is `<-ctx.Done(); return ctx.Err()`: it blocks until the wait context ends and reports that -/")
+		l.p("def emptyCursorWaitBlocksUntilCtxEnds : Bool := %s", leanBool(blocks))
 
 		// --- crsr.WaitNewData
 		cf := parseFile("pkg/cursor/cursor.go")
